@@ -9,6 +9,7 @@
 -/
 import SimVerif.Kernel
 import SimVerif.Queue
+import SimVerif.Tcp
 
 namespace SimVerif.Drv
 
@@ -69,10 +70,19 @@ structure KSt where
   hops : List (String × HopKind) := []
   qs   : List QInst := []
   ds   : List DInst := []
+  net  : NetSt := {}                           -- sockets, registries, channels, forwarders
+  tp   : TParams := {}
+  compl : List (Nat × Ec × String) := []       -- posted user completions: handler ↦ (ec, text after it)
+  itimers : List ((String × Nat) × Nat) := []  -- (owner, slot) ↦ kernel timer id of an internal timer
+  icbs : List ICb := []                        -- internal callbacks; kernel handler id = 2000000 + index
+  sends : List String := []
+  wrOff : List (String × Nat) := []            -- "<socket>/<stream>" ↦ next offset to write
+  wrKeys : List (Nat × String) := []           -- write handler ↦ its offset key                    -- capture log (reversed)
   pend : List (Nat × Nat) := []     -- timer ↦ handler id of the wait whose slot may be busy
   out  : List String := []          -- reversed
   stepNo : Nat := 0                 -- event boundaries seen (step hook)
   bad  : Bool := false
+  pendInv : List Compl := []                   -- handlers to be called inline by the current internal callback
   dead : List Nat := []             -- destroyed timer ids (never reused)
 
 def KSt.emit (s : KSt) (l : String) : KSt := { s with out := l :: s.out }
@@ -109,6 +119,13 @@ def KSt.declare (s : KSt) (decl : List (List String)) : KSt :=
     | "hop" :: name :: "echo" :: args =>
       { s with hops := s.hops ++ [(name, .echo (splitCommas ((findKv? args "route").getD ""))
           (((findKv? args "type").bind PType.ofString).getD .ack) ((findNat? args "len").getD 0) ((findNat? args "ovh").getD 20))] }
+    | "node" :: name :: rest =>
+      { s with net := { s.net with cfg := { s.net.cfg with nodes := s.net.cfg.nodes ++ [(name, splitCommas (rest.headD ""))] } } }
+    | "route" :: "in" :: k :: hs => { s with net := { s.net with cfg := { s.net.cfg with routeIn := (k, hs) :: s.net.cfg.routeIn.filter (·.1 != k) } } }
+    | "route" :: "out" :: k :: hs => { s with net := { s.net with cfg := { s.net.cfg with routeOut := (k, hs) :: s.net.cfg.routeOut.filter (·.1 != k) } } }
+    | "route" :: "net" :: k :: hs => { s with net := { s.net with cfg := { s.net.cfg with routeNet := (k, hs) :: s.net.cfg.routeNet.filter (·.1 != k) } } }
+    | ["mtu", k, v] => { s with net := { s.net with cfg := { s.net.cfg with mtu := (k, v.toNat?.getD 1475) :: s.net.cfg.mtu.filter (·.1 != k) } } }
+    | "pcap" :: _ => { s with net := { s.net with cfg := { s.net.cfg with pcap := true } } }
     | _ => s) s
 
 def hex2 (n : Nat) : String :=
@@ -122,11 +139,18 @@ def payloadHex (id len : Nat) : String :=
   else if len ≤ 16 then String.join ((List.range len).map byte)
   else String.join ((List.range 8).map byte) ++ ".." ++ String.join ((List.range 8).map (fun i => byte (len - 8 + i)))
 
+/-- payload as the harness prints it: all of it up to 16 bytes, else first 8 .. last 8 -/
+def payloadShort (l : List UInt8) : String :=
+  if l.isEmpty then "-"
+  else if l.length ≤ 16 then hexOf l
+  else hexOf (l.take 8) ++ ".." ++ hexOf (l.drop (l.length - 8))
+
 def describePkt (tag name : String) (now : Int) (p : Pkt) (hasDrop : Bool) : String :=
   tag ++ " " ++ name ++ " t=" ++ toString now ++ " type=" ++ p.ty.toString ++ " seq=" ++ toString p.id
-    ++ " len=" ++ toString p.len ++ " ovh=" ++ toString p.ovh ++ " from=" ++ p.src ++ " ec=ok bc=0 drop="
+    ++ " len=" ++ toString p.len ++ " ovh=" ++ toString p.ovh ++ " from=" ++ p.src ++ " ec=" ++ toString p.ec
+    ++ " bc=" ++ toString p.bc ++ " drop="
     ++ (if hasDrop then "1" else "0") ++ " hops=" ++ (if p.hops.isEmpty then "0" else "1")
-    ++ " pl=" ++ payloadHex p.id p.len
+    ++ " pl=" ++ (if p.payload.length = p.len && p.len > 0 then payloadShort p.payload else payloadHex p.id p.len)
 
 def KSt.setQ (s : KSt) (qi : Nat) (q : Q) : KSt :=
   { s with qs := s.qs.mapIdx (fun i x => if i = qi then { x with q := q } else x) }
@@ -140,13 +164,41 @@ def applyQEffs (p : KParams) (qi : Nat) (effs : List QEff) (s : KSt) : KSt :=
       let k := step p s.k (.expiresAt (qTimer qi) e)
       { s with k := step p k (.wait (qTimer qi) (qHandler qi cb)) }
     | .post cb => { s with k := step p s.k (.post (qHandler qi cb)) }
-    | .dropCb pk => s.emit (describePkt "B" "cb" s.k.now pk false)) s
+    | .dropCb pk =>
+      match pk.dropFwd with
+      | none => s.emit (describePkt "B" "cb" s.k.now pk false)
+      | some fid =>
+        -- a TCP segment: the notification goes through the sender's forwarder
+        match s.net.fwdTarget fid with
+        | some name => { s with net := s.net.tcpPacketDropped s.tp name pk }
+        | none => s) s
 
 def natRewrite (src ext : String) : String :=
   match (src.splitOn ":").getLast? with
   | some port => ext ++ ":" ++ port
   | none => src
 
+/-- the kernel timer standing for an internal timer object (allocated on first use) -/
+def KSt.itimer (s : KSt) (owner : String) (slot : Nat) : KSt × Nat :=
+  match s.itimers.lookup (owner, slot) with
+  | some t => (s, t)
+  | none => let t := 3000 + s.itimers.length; ({ s with itimers := s.itimers ++ [((owner, slot), t)] }, t)
+
+def KSt.icb (s : KSt) (cb : ICb) : KSt × Nat :=
+  ({ s with icbs := s.icbs ++ [cb] }, 2000000 + s.icbs.length)
+
+def dropNotify (s : KSt) (name : String) (pk : Pkt) : KSt :=
+  let s := s.emit (describePkt "D" name s.k.now pk pk.hasDrop)
+  if pk.hasDrop then
+    match pk.dropFwd with
+    | none => s.emit (describePkt "B" "cb" s.k.now pk false)
+    | some fid =>
+      match s.net.fwdTarget fid with
+      | some nm => { s with net := s.net.tcpPacketDropped s.tp nm pk }
+      | none => s
+  else s
+
+mutual
 /-- `forward_packet`: pop the next hop off the packet's route and hand the packet to it,
     synchronously (fuel bounds route length × re-entrancy depth). -/
 def forwardPkt (p : KParams) : Nat → Pkt → KSt → KSt
@@ -156,11 +208,38 @@ def forwardPkt (p : KParams) : Nat → Pkt → KSt → KSt
     | [] => s                                  -- "packet lost"
     | name :: rest =>
       let pk := { pk with hops := rest }
+      if name.startsWith "@" then
+        -- a socket's forwarder: detached → the packet vanishes
+        match ((name.drop 1).toString.toNat?).bind s.net.fwdTarget with
+        | none => s
+        | some sock =>
+          if sock.startsWith "u" then
+            match s.net.udp? sock with
+            | none => s
+            | some u =>
+              let r := u.incoming pk
+              applyNEffs p f r.2 { s with net := s.net.setUdp sock r.1 }
+          else
+            match s.net.tcp? sock with
+            | none => s
+            | some t =>
+              if t.acc.isSome then
+                let r := s.net.accIncoming s.k.now sock pk
+                applyNEffs p f r.2 { s with net := r.1 }
+              else
+                let r := s.net.tcpIncoming s.tp s.k.now sock pk
+                applyNEffs p f r.2 { s with net := r.1 }
+      else
       match s.hops.lookup name with
       | none => { s with bad := true }
       | some .hole => s
       | some .probe => forwardPkt p f pk (s.emit (describePkt "P" name s.k.now pk pk.hasDrop))
-      | some (.nat ext) => forwardPkt p f { pk with src := natRewrite pk.src ext } s
+      | some (.nat ext) =>
+        -- rewrites `from`, and on a SYN the connecting side's visible endpoint
+        let s := match pk.ty, pk.chan.bind s.net.chan? with
+          | .syn, some ch => { s with net := s.net.setChan (pk.chan.getD 0) { ch with vis0 := { ch.vis0 with addr := ext } } }
+          | _, _ => s
+        forwardPkt p f { pk with src := natRewrite pk.src ext } s
       | some (.echo route ty len ovh) =>
         forwardPkt p f { id := 100000 + pk.id, ty := ty, len := len, ovh := ovh, hops := route, src := "0.0.0.0:0" } s
       | some (.dropper di) =>
@@ -169,9 +248,7 @@ def forwardPkt (p : KParams) : Nat → Pkt → KSt → KSt
         | some d =>
           if pk.okToDrop then
             let s := { s with ds := s.ds.mapIdx (fun i x => if i = di then { x with seen := x.seen + 1 } else x) }
-            if d.which.contains d.seen then
-              let s := s.emit (describePkt "D" name s.k.now pk pk.hasDrop)
-              if pk.hasDrop then s.emit (describePkt "B" "cb" s.k.now pk false) else s
+            if d.which.contains d.seen then dropNotify s name pk
             else forwardPkt p f pk s
           else forwardPkt p f pk s
       | some (.queue qi) =>
@@ -180,6 +257,39 @@ def forwardPkt (p : KParams) : Nat → Pkt → KSt → KSt
         | some qinst =>
           let r := qinst.q.incoming qinst.cfg s.k.now pk
           applyQEffs p qi r.2 (s.setQ qi r.1)
+termination_by f _ _ => (f, 0)
+
+/-- Interpret the effects of a socket function, in order. Inline invocations (a handler
+    called from an internal callback) are collected in `pendInv` for the caller to run. -/
+def applyNEffs (p : KParams) : Nat → List NEff → KSt → KSt
+  | 0, _, s => { s with bad := true }
+  | _, [], s => s
+  | f + 1, e :: rest, s =>
+    let s := match e with
+      | .post c => { s with k := step p s.k (.post c.h), compl := s.compl ++ [(c.h, c.ec, c.extra)] }
+      | .invoke c => { s with pendInv := s.pendInv ++ [c] }
+      | .forward pk => forwardPkt p f pk s
+      | .armTimer owner slot e cb =>
+        let (s, t) := s.itimer owner slot
+        let (s, h) := s.icb cb
+        let k := step p s.k (.expiresAt t e)
+        { s with k := step p k (.wait t h) }
+      | .armAfter owner slot d cb =>
+        let (s, t) := s.itimer owner slot
+        let (s, h) := s.icb cb
+        let k := step p s.k (.expiresAfter t d)
+        { s with k := step p k (.wait t h) }
+      | .cancelTimer owner slot =>
+        match s.itimers.lookup (owner, slot) with
+        | some t => { s with k := step p s.k (.cancel t) }
+        | none => s
+      | .pcapUdp t src dst pl => { s with sends := ("udp t=" ++ toString t ++ " " ++ src.toString ++ ">" ++ dst.toString ++ " len=" ++ toString pl.length) :: s.sends }
+      | .pcapTcp t src dst sq pl => { s with sends := ("tcp t=" ++ toString t ++ " " ++ src.toString ++ ">" ++ dst.toString ++ " seq=" ++ toString sq ++ " len=" ++ toString pl.length) :: s.sends }
+    applyNEffs p (f + 1) rest s
+termination_by f effs _ => (f, effs.length)
+end
+
+def netFuel : Nat := 256
 
 /-- A queue callback popped from the io_context queue. -/
 def runQueueCb (p : KParams) (h : Nat) (s : KSt) : KSt :=
@@ -194,7 +304,7 @@ def runQueueCb (p : KParams) (h : Nat) (s : KSt) : KSt :=
       match qinst.q.sentPop with
       | (_, none) => { s with bad := true }    -- front() of an empty deque in the C++
       | (q1, some pk) =>
-        let s := forwardPkt p 64 pk (s.setQ qi q1)
+        let s := forwardPkt p netFuel pk (s.setQ qi q1)
         match s.qs[qi]? with
         | none => { s with bad := true }
         | some qinst2 =>
@@ -211,8 +321,187 @@ def doInject (p : KParams) (ctx : String) (op : List String) (s : KSt) : KSt :=
     hasDrop := (findNat? args "cb").getD 0 != 0
     hops := splitCommas ((findKv? args "route").getD "")
     src := (findKv? args "from").getD "0.0.0.0:0" }
-  let s := forwardPkt p 64 pk s
+  let s := forwardPkt p netFuel pk s
   s.emit ("C " ++ ctx ++ " " ++ joinSp op ++ " => -")
+
+/-- the deterministic payload stream of the harness: byte `i` of stream `st` -/
+def streamByte (st : Nat) (i : Nat) : UInt8 :=
+  let x : UInt64 := (st.toUInt64 * 0x9E3779B97F4A7C15) ^^^ (i.toUInt64 * 0xBF58476D1CE4E5B9 + 0x94D049BB133111EB)
+  let x := x ^^^ (x >>> 29)
+  let x := x * 0xBF58476D1CE4E5B9
+  let x := x ^^^ (x >>> 32)
+  (x &&& 0xff).toUInt8
+
+/-- how the harness splits `total` bytes into `k` buffers -/
+def cutSizes (total k : Nat) : List Nat :=
+  let k := if k < 1 then 1 else k
+  (List.range k).map (fun i => total / k + (if i < total % k then 1 else 0))
+
+def splitBy : List Nat → List UInt8 → List (List UInt8)
+  | [], _ => []
+  | n :: rest, l => l.take n :: splitBy rest (l.drop n)
+
+def ecRes (e : Ec) : String := toString e
+
+def objNode (op : List String) (s : KSt) : String :=
+  match op with
+  | _ :: nd :: _ => nd
+  | _ => ((s.net.cfg.nodes.head?).map Prod.fst).getD "n0"
+
+/-- ops on TCP sockets (`s<k>`), acceptors (`a<k>`) and UDP sockets (`u<k>`). `none` = not a
+    network op. Result strings are those of harness/simdrv_net.cpp. -/
+def doNetOp (p : KParams) (ctx : String) (op : List String) (s : KSt) : Option KSt :=
+  match op with
+  | [] => none
+  | o :: args =>
+    match o.splitOn "." with
+    | [name, m] =>
+      let kind := name.front
+      if !(kind == 's' || kind == 'a' || kind == 'u') || !((name.drop 1).toString.toNat?).isSome then none else
+      let text := joinSp op
+      let res := fun (s : KSt) (r : String) => s.emit ("C " ++ ctx ++ " " ++ text ++ " => " ++ r)
+      let now := s.k.now
+      let fx := fun (r : NetSt × List NEff) (s : KSt) => applyNEffs p netFuel r.2 { s with net := r.1 }
+      let hOf := fun (t : String) => parseId? "h" t
+      if kind == 'u' then
+        if m == "new" then some (res { s with net := s.net.setUdp name { node := objNode op s } } "-") else
+        match s.net.udp? name with
+        | none => some (res s "skipped")
+        | some u =>
+          match m, args with
+          | "destroy", _ =>
+            let s := fx (s.net.udpClose name) s
+            some (res { s with net := { s.net with udps := s.net.udps.filter (·.1 != name) } } "-")
+          | "open", v :: _ => some (res (fx (s.net.udpOpen name (v != "v6")) s) "ok")
+          | "bind", e :: _ =>
+            match Ep.parse e with
+            | none => some (res s "bad-op")
+            | some ep =>
+              let r := s.net.udpBind name ep
+              let s := { s with net := r.1 }
+              let loc := match s.net.udp? name with
+                | some u => if u.isOpen then u.bound.toString else "bad_desc"
+                | none => "?"
+              some (res s (ecRes r.2 ++ " local=" ++ loc))
+          | "send_to", e :: rest =>
+            match Ep.parse e with
+            | none => some (res s "bad-op")
+            | some dst =>
+              let len := (findNat? rest "len").getD 0
+              let id := (findNat? rest "id").getD 0
+              let payload := (List.range len).map (fun i => UInt8.ofNat ((id * 7 + i) % 256))
+              let r := s.net.udpSendTo now name dst payload
+              let s := fx (r.1, r.2.1) s
+              some (res s (ecRes r.2.2.1 ++ " n=" ++ toString r.2.2.2))
+          | "recv", h :: rest | "recv_noep", h :: rest =>
+            match hOf h with
+            | none => some (res s "bad-op")
+            | some hn =>
+              let caps := (cutSizes ((findNat? rest "cap").getD 1) ((findNat? rest "bufs").getD 1)).filter (· > 0)
+              some (res (fx (s.net.udpAsyncRecv name { h := hn, caps := caps, withEp := m == "recv" }) s) "-")
+          | "wait_read", h :: _ =>
+            (hOf h).map (fun hn => res (fx (s.net.udpWaitRead name hn) s) "-")
+          | "wait_write", h :: _ =>
+            (hOf h).map (fun hn => res (fx (s.net.udpWaitWrite now name hn) s) "-")
+          | "recv_nb", rest =>
+            let caps := (cutSizes ((findNat? rest "cap").getD 1) ((findNat? rest "bufs").getD 1)).filter (· > 0)
+            let r := s.net.udpRecvNb name caps
+            let s := fx (r.1, r.2.1) s
+            match r.2.2 with
+            | .ok (data, src) => some (res s ("ok n=" ++ toString data.length ++ " ep=" ++ src ++ " " ++ dataDesc data))
+            | .error e => some (res s (ecRes e ++ " n=0 ep=0.0.0.0:0 data=-"))
+          | "close", _ => some (res (fx (s.net.udpClose name) s) "ok")
+          | "cancel", _ => some (res (fx (s.net.udpCancel name) s) "ok")
+          | "local", _ => some (res s (if u.isOpen then u.bound.toString else "bad_desc"))
+          | "is_open", _ => some (res s (if u.isOpen then "1" else "0"))
+          | "set_df", v :: _ => some (res { s with net := s.net.setUdp name { u with df := v == "1" } } "ok")
+          | "move", dst :: _ => some (res { s with net := s.net.udpMove name dst } "-")
+          | _, _ => some (res s "bad-op")
+      else
+        if m == "new" then
+          some (res { s with net := s.net.setTcp name { node := objNode op s, acc := if kind == 'a' then some {} else none } } "-") else
+        match s.net.tcp? name with
+        | none => some (res s "skipped")
+        | some t =>
+          let isAcc := t.acc.isSome
+          match m, args with
+          | "destroy", _ =>
+            let s := if isAcc then fx (s.net.accClose now name) s
+                     else fx ((s.net.setTcp name { t with chan := none }).tcpClose now name) s
+            some (res { s with net := { s.net with tcps := s.net.tcps.filter (·.1 != name) } } "-")
+          | "open", v :: _ => some (res (fx (s.net.tcpOpen now name (v != "v6")) s) "ok")
+          | "bind", e :: _ =>
+            match Ep.parse e with
+            | none => some (res s "bad-op")
+            | some ep =>
+              let r := s.net.tcpBind name ep
+              let s := { s with net := r.1 }
+              let loc := match s.net.tcp? name with
+                | some t => if t.isOpen then t.bound.toString else "bad_desc"
+                | none => "?"
+              some (res s (ecRes r.2 ++ " local=" ++ loc))
+          | "connect", e :: h :: _ =>
+            match Ep.parse e, hOf h with
+            | some ep, some hn => some (res (fx (s.net.tcpConnect now name ep hn) s) "-")
+            | _, _ => some (res s "bad-op")
+          | "write", h :: rest =>
+            match hOf h with
+            | none => some (res s "bad-op")
+            | some hn =>
+              let stream := (findNat? rest "stream").getD 0
+              let len := (findNat? rest "len").getD 1
+              let key := name ++ "/" ++ toString stream
+              let off := (s.wrOff.lookup key).getD 0
+              let data := (List.range len).map (fun i => streamByte stream (off + i))
+              let bufs := splitBy (cutSizes len ((findNat? rest "bufs").getD 1)) data
+              let s := { s with wrKeys := (hn, key) :: s.wrKeys }
+              some (res (fx (s.net.tcpAsyncWrite now name { h := hn, bufs := bufs, stream := stream, off := off }) s) "-")
+          | "read", h :: rest =>
+            match hOf h with
+            | none => some (res s "bad-op")
+            | some hn =>
+              let caps := (cutSizes ((findNat? rest "cap").getD 1) ((findNat? rest "bufs").getD 1)).filter (· > 0)
+              some (res (fx (s.net.tcpAsyncRead name { h := hn, caps := caps }) s) "-")
+          | "wait_read", h :: _ => (hOf h).map (fun hn => res (fx (s.net.tcpWaitRead name hn) s) "-")
+          | "read_nb", rest =>
+            let caps := (cutSizes ((findNat? rest "cap").getD 1) ((findNat? rest "bufs").getD 1)).filter (· > 0)
+            let r := s.net.tcpReadNb name caps
+            let s := { s with net := r.1 }
+            match r.2 with
+            | .ok data => some (res s ("ok n=" ++ toString data.length ++ " " ++ dataDesc data))
+            | .error e => some (res s (ecRes e ++ " n=0 data=-"))
+          | "close", _ => some (res (fx (if isAcc then s.net.accClose now name else s.net.tcpClose now name) s) "ok")
+          | "close0", _ => some (res (fx (s.net.accClose now name) s) "-")
+          | "cancel", _ => some (res (fx (if isAcc then s.net.accCancel name else s.net.tcpCancel name) s) "ok")
+          | "available", _ =>
+            match t.available t.chan.isSome with
+            | .ok k => some (res s ("ok n=" ++ toString k))
+            | .error e => some (res s (ecRes e ++ " n=0"))
+          | "local", _ => some (res s (if t.isOpen then t.bound.toString else "bad_desc"))
+          | "remote", _ =>
+            if !t.isOpen then some (res s "bad_desc") else
+            match t.chan.bind s.net.chan? with
+            | none => some (res s "not_conn")
+            | some ch => some (res s (ch.vis (ch.remoteIdx t.bound)).toString)
+          | "is_open", _ => some (res s (if t.isOpen then "1" else "0"))
+          | "move", dst :: _ =>
+            let s := { s with net := s.net.tcpMove name dst,
+                              wrOff := s.wrOff ++ (s.wrOff.filterMap (fun e =>
+                                if e.1.startsWith (name ++ "/") then some (dst ++ (e.1.drop name.length).toString, e.2) else none)) }
+            some (res s "-")
+          | "listen", rest =>
+            let r := s.net.accListen name ((rest.head?.bind String.toInt?).getD (-1))
+            some (res { s with net := r.1 } (ecRes r.2))
+          | "accept", peer :: h :: _ =>
+            if (s.net.tcp? peer).isNone then some (res s "skipped") else
+            (hOf h).map (fun hn => res (fx (s.net.accAsyncAccept now name (.into hn peer false)) s) "-")
+          | "accept_ep", peer :: h :: _ =>
+            if (s.net.tcp? peer).isNone then some (res s "skipped") else
+            (hOf h).map (fun hn => res (fx (s.net.accAsyncAccept now name (.into hn peer true)) s) "-")
+          | "accept_new", nn :: h :: _ =>
+            (hOf h).map (fun hn => res (fx (s.net.accAsyncAccept now name (.fresh hn nn)) s) "-")
+          | _, _ => some (res s "bad-op")
+    | _ => none
 
 mutual
 /-- Execute one op of context `ctx` (depth bounds inline `dispatch` nesting). -/
@@ -242,6 +531,9 @@ def doOp (p : KParams) (scn : Scn) (depth : Nat) (ctx : String) (op : List Strin
           s.emit (c ++ text ++ " => -")
     | none => { s with bad := true }
   | o :: args =>
+    match doNetOp p ctx op s with
+    | some s' => s'
+    | none =>
     match timerOp? o with
     | none => s.emit (c ++ text ++ " => bad-op")
     | some (i, m) =>
@@ -299,10 +591,37 @@ def pollLoop (p : KParams) (scn : Scn) : Nat → KSt → Nat → KSt × Nat
     | t :: _ =>
       let s := { s with k := step p s.k .exec }
       let s :=
-        if t.h ≥ 1000000 then runQueueCb p t.h s     -- a queue's own callback (ignores `ec`)
+        if t.h ≥ 2000000 then
+          -- an internal timer callback of a socket
+          let s := match s.icbs[t.h - 2000000]? with
+            | some (.udpSendWait name) =>
+              let r := s.net.udpSendWaitFired name (t.ec == Ec.aborted)
+              applyNEffs p netFuel r.2 { s with net := r.1 }
+            | some (.tcpConnectRefused _ h) =>
+              -- the handler was bound together with the refusal; the timer's own code is ignored
+              { s with pendInv := s.pendInv ++ [({ h := h, ec := Ec.refused } : Compl)] }
+            | none => { s with bad := true }
+          let inv := s.pendInv
+          inv.foldl (fun (s : KSt) (c : Compl) =>
+            let h := "h" ++ toString c.h
+            let s := s.emit ("H " ++ h ++ " t=" ++ toString s.k.now ++ " ec=" ++ toString c.ec
+              ++ (if c.extra.isEmpty then "" else " " ++ c.extra) ++ " incall=0")
+            doOps p scn 8 h (scn.ops h) s) { s with pendInv := [] }
+        else if t.h ≥ 1000000 then runQueueCb p t.h s     -- a queue's own callback (ignores `ec`)
         else
           let h := "h" ++ toString t.h
-          let s := s.emit ("H " ++ h ++ " t=" ++ toString s.k.now ++ " ec=" ++ toString t.ec ++ " incall=0")
+          let (ec, extra) := match s.compl.lookup t.h with
+            | some (e, x) => (e, x)
+            | none => (t.ec, "")
+          let s := { s with compl := s.compl.filter (·.1 != t.h) }
+          let s := s.emit ("H " ++ h ++ " t=" ++ toString s.k.now ++ " ec=" ++ toString ec
+            ++ (if extra.isEmpty then "" else " " ++ extra) ++ " incall=0")
+          -- a completed write advances the stream offset by the bytes accepted
+          let s := match s.wrKeys.lookup t.h with
+            | some key =>
+              let n := (findNat? (extra.splitOn " ") "n").getD 0
+              { s with wrOff := (key, (s.wrOff.lookup key).getD 0 + n) :: s.wrOff.filter (·.1 != key) }
+            | none => s
           let s := s.clearH t.h
           doOps p scn 8 h (scn.ops h) s
       -- step hook `after_handler`: scenario ops placed at this event boundary
